@@ -151,6 +151,17 @@ def decide(prop, tier, seed=0, use_cache=True, out=sys.stdout):
     need_twins = bool(violations and any(v["engine"] == "verus" for v in violations)) or bool(aux_fail) or any(u[1] in ("extract-error", "compile-error", "tool-error", "script-misfit") for u in undecided_units)
     twin_res = None
     if need_twins and twin_names:
+        # functions the trouble points at: run the twins that exercise them (all twins if none is that specific)
+        affected = set()
+        for u in undecided_units:
+            for f in (u[3] if len(u) > 3 and u[3] else []):
+                affected.add(f.split("::")[-1])
+        for v in violations + aux_fail:
+            if v.get("engine") == "verus" and v.get("fn"):
+                affected.add(v["fn"].split("::")[-1])
+        relevant = [h for h in twin_names if affected & set(cfg["harnesses"][h].get("covers", []))]
+        if relevant:
+            twin_names = relevant
         run_now = [h for h in twin_names if h not in kres["harnesses"]]
         if run_now:
             # the quick tier must stay well under 15 minutes in total: the fallback gets what is left of a 12 minute budget
